@@ -34,6 +34,8 @@ structure Core (k : Nat) (st ne : Bool) (L : Nat) (s0 s : IState) : Prop where
   memWF : WF s.mem
   memCk : s.mem.lastCheckpoint ≤ 2^62
   memL : L ≤ clen s.mem
+  /-- memory of the frame never shrinks -/
+  grow : clen s0.mem ≤ clen s.mem
   rdLen : s.returnData.length ≤ Memory.ISIZE_MAX
   inLen : s.input.length ≤ Memory.ISIZE_MAX
   m0 : measure s0 ≤ U64 - 1
